@@ -108,8 +108,10 @@ impl<'a> Recorder<'a> {
                     self.stopped = true;
                     return false;
                 }
-                if self.unknown(&fails).is_some() {
-                    self.res.failure = Some(FailureRec { case: case(), fails });
+                if let Some(first) = self.unknown(&fails) {
+                    let mut cj = case();
+                    apply_patch(&mut cj, &first.patch.clone());
+                    self.res.failure = Some(FailureRec { case: cj, fails });
                     self.stopped = true;
                     false
                 } else {
